@@ -146,18 +146,18 @@ ADDENDA = {
     "C04": "Relative dates are also compiled on a machine whose local calendar day is not the UTC calendar day (00:30 at UTC+2, 19:30 at UTC-8; the frozen clock's datetime.now(tz) is made faithful). Quoted texts include texts that begin or end with the other kind of quote.",
     "C05": "Items also carry create dates at a turn of the year (ISO week-year differs), a create date after 2099 (known finding), and raw bytes that are not valid UTF-8. A layout holds bare carriage returns above the items; scripted sessions of ONE long-lived `zorg edit` process (several reindex runs, lines shifting between them) must leave every note with its ZID and the index equal to the recompiled files.",
     "C06": "Two more initial states put the indexed directory on a machine whose local calendar day is not the UTC calendar day. One more event reindexes an explicit path spelled <dir>/sub/../a.zo, one deletes the added page again, the last holder of a link loses it, link selections are among the queries; scripted `zorg edit` sessions (one process, several reindex runs) must end equal to a rebuild.",
-    "C07": "Allocation dates include days whose ISO week-based year is not their calendar year; command-level histories over {append a ZID-less note, db create, db reindex, delete the database file} must never write one ZID on two notes. The written-back page holds bare carriage returns above the items.",
-    "C08": "Contents include raw bytes that are not valid UTF-8 (ISO-8859-1 text, a stray 0xFF / 0x80, a cut multi-byte sequence, a BOM), at compile and at command level. Property keys and tag names include names that are parameter names of logging / formatting / ORM calls (event, self, kwargs, ...), quoted and not, at compile and command level.",
-    "C09": "Two more indexes: one in which a note line was copied to another page (two notes share a ZID), one whose page paths contain '.zo' before the extension too. A third corpus is K4 after a real history (a page that was the only holder of a link / tag / key deleted, another last holder edited, plain reindex), under every value selection.",
+    "C07": "Allocation dates include days whose ISO week-based year is not their calendar year; command-level histories over {append a ZID-less note, db create, db reindex, delete the database file} must never write one ZID on two notes. The written-back page holds bare carriage returns above the items. One allocation per case may find its read of next_ids.json answered with EACCES / EIO / ESTALE / EPERM.",
+    "C08": "Contents include raw bytes that are not valid UTF-8 (ISO-8859-1 text, a stray 0xFF / 0x80, a cut multi-byte sequence, a BOM), at compile and at command level. Property keys and tag names include names that are parameter names of logging / formatting / ORM calls (event, self, kwargs, ...), quoted and not, at compile and command level. Commands are also started from a sub-directory of the notes directory that holds clean pages with the same names.",
+    "C09": "Two more indexes: one in which a note line was copied to another page (two notes share a ZID), one whose page paths contain '.zo' before the extension too. A third corpus is K4 after a real history (a page that was the only holder of a link / tag / key deleted, another last holder edited, plain reindex), under every value selection. Six queries are also run through the CLI at -v, -vv and -vvv: the rendering is the same text at the end of the output.",
     "C10": "The source page's header block carries property values with backslashes and values that merely look like a date / a ZID.",
     "C11": "Two more initial states put the directory on a machine whose local calendar day is not the UTC calendar day. Scripted `zorg edit` sessions (one process stamping on several occasions, midnight passing while the editor is open) must leave index and files in agreement.",
     "C12": "Part 3 runs the real note move for 6 kind/priority forms x 7 tails x 3 source header blocks x {no marker, x, ~} and judges the text that arrived on the destination page. Saved-query pages refreshed twice inside ONE long-lived `zorg edit` process must show what a fresh process shows.",
-    "C13": "Besides dying immediately BEFORE effect k, the command also dies the moment effect k's call has RETURNED (nothing still buffered in an open file reaches the disk, the database file that was just deleted has not been re-created); an eleventh scenario rebuilds an existing index (db create over an old database).",
-    "C14": "Rename pairs include names that are not in Unicode normal form C; one linking page is ISO-8859-1 (not valid UTF-8). Two cases hold large pages in which the only link starts at every byte offset around 4 KiB, 8 KiB, 64 KiB and 128 KiB.",
-    "C15": "A slice of the referencing queries is also expanded with the notes directory spelled through a symlink, with a '..' and with a doubled slash. Saved pages in sub-directories of zoq/ that mention flat names (and a same-named decoy next to them) are referenced too.",
-    "C16": "One pattern's group takes part in the match but may capture nothing (target _log.zo). A third of the templates end their header block with a blanks-only or tab-only line.",
+    "C13": "Besides dying immediately BEFORE effect k, the command also dies the moment effect k's call has RETURNED (nothing still buffered in an open file reaches the disk, the database file that was just deleted has not been re-created); an eleventh scenario rebuilds an existing index (db create over an old database). A twelfth scenario reindexes ONE explicit page that needs both write-backs.",
+    "C14": "Rename pairs include names that are not in Unicode normal form C; one linking page is ISO-8859-1 (not valid UTF-8). Two cases hold large pages in which the only link starts at every byte offset around 4 KiB, 8 KiB, 64 KiB and 128 KiB. Renames are also started from a sub-directory of the notes directory that holds a page with the old name.",
+    "C15": "A slice of the referencing queries is also expanded with the notes directory spelled through a symlink, with a '..' and with a doubled slash. Saved pages in sub-directories of zoq/ that mention flat names (and a same-named decoy next to them) are referenced too. References are also expanded with the process's working directory inside the notes directory, in a sub-directory that has a zoq/ of its own.",
+    "C16": "One pattern's group takes part in the match but may capture nothing (target _log.zo). A third of the templates end their header block with a blanks-only or tab-only line. Templates have a line that starts with a variable; one variable map gives it a value that looks like the template header marker ('## ...').",
     "C17": "One referenced ZID is owned by notes of two pages (either page may be opened); three prefixes put the first target directly after the item's prefix. Prefixes whose first body word is made of kind characters or punctuation, and whole lines with a bare ZID right after a link / at the start of a continuation line, are included.",
-    "C18": "Besides a UTC machine at noon, expansion also runs where the local calendar day is not the UTC calendar day (00:30 at UTC+2, 19:30 at UTC-8). A family without freezegun runs in zones with daylight-saving time (TZ + tzset, a stand-in clock) at instants next to midnight on both sides of a switch.",
+    "C18": "Besides a UTC machine at noon, expansion also runs where the local calendar day is not the UTC calendar day (00:30 at UTC+2, 19:30 at UTC-8). A family without freezegun runs in zones with daylight-saving time (TZ + tzset, a stand-in clock) at instants next to midnight on both sides of a switch. The innermost group may hold a pattern with brace escapes ('{{' / '}}').",
 }
 
 
